@@ -1,0 +1,19 @@
+//go:build verif
+
+package local
+
+import (
+	"github.com/mutagen-io/mutagen/pkg/filesystem"
+	"github.com/mutagen-io/mutagen/pkg/synchronization"
+	"github.com/mutagen-io/mutagen/pkg/synchronization/core"
+)
+
+// VerifC37EffectiveModes reports the effective permissions mode and default
+// file and directory modes computed by NewEndpoint.
+func VerifC37EffectiveModes(e synchronization.Endpoint) (core.PermissionsMode, filesystem.Mode, filesystem.Mode, bool) {
+	l, ok := e.(*endpoint)
+	if !ok {
+		return 0, 0, 0, false
+	}
+	return l.permissionsMode, l.defaultFileMode, l.defaultDirectoryMode, true
+}
